@@ -2,6 +2,7 @@
 every fit is compared with the result of a fresh process; inputs are compared byte for byte."""
 import copy
 import json
+import os
 import pickle
 import warnings
 
@@ -238,8 +239,18 @@ def run_solve_purity(comp, storage, seed, tid):
             out[k_] = _bytes(v_) if isinstance(v_, np.ndarray) else repr(v_)
         return out
     params0 = params(slv)
+    # outer iterations of each solve, observed at the solvers' `record` hook (one event per recorded objective)
+    from skglm import _verif
+    nrec = [0]
+
+    def count_records(kind, fields):
+        if kind == "record":
+            nrec[0] += 1
+    prev_sink = _verif.set_sink(count_records)
+    records = []
     results = []
     hists = []
+    params_same = []
     exc = None
     try:
         with warnings.catch_warnings():
@@ -254,8 +265,9 @@ def run_solve_purity(comp, storage, seed, tid):
                         df.initialize(X, y)
                 wi, Xwi = w0.copy(), np.array(Xw0, copy=True, order="F" if Xw0.ndim == 2 else "C")
                 b_wi, b_Xwi = wi.tobytes(), Xwi.tobytes()
-                res = slv.solve(Xs, y, df, pen) if k == 0 or s in ("LBFGS", "PDCD_WS", "GramCD", "FISTA") \
-                    else slv.solve(Xs, y, df, pen)
+                nrec[0] = 0
+                res = slv.solve(Xs, y, df, pen)
+                records.append(nrec[0])
                 results.append(np.array(res[0], dtype=float, copy=True))
                 hists.append(np.array(res[1], dtype=float, copy=True).ravel())
                 # solving does not change the solver's hyper-parameters
@@ -263,6 +275,7 @@ def run_solve_purity(comp, storage, seed, tid):
                 # (only what the solver was constructed with: a new private attribute is not a changed hyper-parameter)
                 changed = sorted(k2 for k2 in params0 if pnow.get(k2) != params0[k2])
                 f.flag("solver_params_untouched", not changed)
+                params_same.append(not changed)
                 if changed:
                     f.meta.setdefault("solver_attrs_changed", []).append([k, changed])
                 touched = [k2 for k2, v in arrays.items() if _bytes(v) != before[k2]]
@@ -302,12 +315,19 @@ def run_solve_purity(comp, storage, seed, tid):
                         df_.initialize_sparse(Xs.data, Xs.indptr, Xs.indices, y)
                     else:
                         df_.initialize(X2, y)
-                return np.array(slv_.solve(Xs, y, df_, pen_)[0], dtype=float, copy=True)
-            third = solve_on(slv)
+                r_ = slv_.solve(Xs, y, df_, pen_)
+                return np.array(r_[0], dtype=float, copy=True), np.array(r_[1], dtype=float, copy=True).ravel()
+            nrec[0] = 0
+            third, hthird = solve_on(slv)
+            records.append(nrec[0])
+            pnow = params(slv)
+            params_same.append(not [k2 for k2 in params0 if pnow.get(k2) != params0[k2]])
             rng2 = np.random.default_rng(5)
-            fresh3 = solve_on(make()[0])
+            fresh3, hfresh3 = solve_on(make()[0])
     except Exception as e:  # noqa: BLE001
         exc = (type(e).__name__, str(e)[:200])
+    finally:
+        _verif.set_sink(prev_sink)
     f.meta["exc"] = exc
     f.flag("solve_runs", exc is None)
     if exc is None:
@@ -315,14 +335,50 @@ def run_solve_purity(comp, storage, seed, tid):
         f.le("resolve_same_as_fresh", float(np.max(np.abs(results[1] - fresh))), tol)
         f.le("resolve_same_as_first", float(np.max(np.abs(results[1] - results[0]))), tol)
         # ... and the diagnostics of the second solve are those of a fresh solver (nothing accumulated)
-        same_len = len(hists[1]) == len(hfresh)
+        # (sparse designs: the Lipschitz constants come from a randomly started power method, so two solves of the same
+        #  problem may differ by an iteration at tol 1e-10; there the history is compared with the iterations observed)
+        same_len = len(hists[1]) == (len(hfresh) if storage == "dense" else records[1])
         f.flag("resolve_history_same_as_fresh", same_len)
-        if same_len and len(hfresh):
+        if same_len and len(hfresh) and storage == "dense":
             f.le("resolve_history_same_as_fresh", float(np.max(np.abs(hists[1] - hfresh))),
                  1e-8 * max(1.0, float(np.max(np.abs(hfresh)))))
         f.le("refilled_same_as_fresh", float(np.max(np.abs(third - fresh3))),
              1e-7 * max(1.0, float(np.abs(fresh3).max())))
-    return f.trace()
+    out = f.trace()
+    if exc is None and len(records) == 3 and min(records) >= 1 and _verif.ON:
+        # the same observations as ONE behaviour of specs/solvers/SolverObject.tla (validated by SolverObjectTrace):
+        # one Iterate step per `record` event observed inside the solve
+        tol3 = 1e-7 * max(1.0, float(np.abs(fresh3).max()))
+
+        def ev(res_, hist_, ref_, nrec_, same_, tol_):
+            return dict(ev="Solve", b=1, iters=int(nrec_), histLen=int(len(hist_)), paramsSame=bool(same_),
+                        fresh=bool(float(np.max(np.abs(res_ - ref_))) <= tol_))
+        out["object_trace"] = dict(id=tid, events=[
+            ev(results[0], hists[0], fresh, records[0], params_same[0], tol),
+            ev(results[1], hists[1], fresh, records[1], params_same[1], tol),
+            dict(ev="Refill", b=1),
+            ev(third, hthird, fresh3, records[2], params_same[2], tol3)])
+    return out
+
+
+def judge_object_traces(otraces):
+    """{trace id: (accepted, line reached, n)} from one TLC run of specs/trace/SolverObjectTrace.tla"""
+    import tempfile
+    os.makedirs(tlc.WORK, exist_ok=True)
+    fd, path = tempfile.mkstemp(prefix="objtraces_", suffix=".json", dir=tlc.WORK)
+    with os.fdopen(fd, "w") as fh:
+        json.dump({"traces": otraces}, fh)
+    try:
+        r = tlc.run("SolverObjectTrace", "SolverObjectTrace.cfg", env={"TRACE_FILE": path}, timeout=600)
+    finally:
+        os.unlink(path)
+    if r["violated"]:
+        raise tlc.TLCError(f"SolverObjectTrace: design invariant {r['violated']} violated on a recorded trace")
+    reached = {t["id"]: 1 for t in otraces}
+    for pr in r["printed"]:
+        if isinstance(pr, dict) and pr.get("v") == 2:
+            reached[pr["id"]] = max(reached.get(pr["id"], 1), pr["l"])
+    return {t["id"]: (reached[t["id"]] == len(t["events"]) + 1, reached[t["id"]], len(t["events"])) for t in otraces}, r
 
 
 SOLVER_OBJECT_NEG = (("SolverObject_neg_history.cfg", "HistPerSolve"), ("SolverObject_neg_clamp.cfg", "ParamsStable"),
@@ -407,6 +463,30 @@ def solve_purity_binding(ck, tier, seed):
                               seed=meta["seed"]))
     ck.cov["binding"].append(dict(check="solver-level purity: same solver object solves twice, all user arrays "
                                         "byte-compared, second result against a fresh solver", runs=len(res)))
+    otraces = [t["object_trace"] for t in res if t.get("object_trace")]
+    if otraces:
+        try:
+            verdicts, r = judge_object_traces(otraces)
+        except tlc.TLCError as e:
+            ck.machinery(str(e)[:2000])
+            return
+        ck.add_tlc(r, name="SolverObjectTrace (recorded solve sequences of one solver object against SolverObject.tla)",
+                   kind="trace validation")
+        by_id = {t["id"]: t for t in res}
+        for ot in otraces:
+            ok, reached, n = verdicts[ot["id"]]
+            ck.cov["traces_validated_against_impl"] += 1
+            ck.clause("solver_object_trace", ok)
+            if not ok:
+                meta = by_id[ot["id"]]["meta"]
+                ck.violation("solver_object_trace",
+                             dict({k: meta.get(k) for k in ("solver", "datafit", "penalty", "storage")},
+                                  clause="solver_object_trace", rejected_at_line=reached, event=ot["events"][reached - 1]),
+                             dict(kind="solve_purity", replay_module="harness.checks.purity", property="C18",
+                                  clause="solver_object_trace", comp=[meta["solver"], meta["datafit"], meta["penalty"]],
+                                  storage=meta["storage"], seed=meta["seed"]))
+        ck.cov["binding"].append(dict(check="recorded solve / refill / solve sequences accepted by SolverObjectTrace.tla "
+                                            "(TLC reuses the actions of SolverObject.tla)", traces=len(otraces)))
 
 
 def run(prop, tier, seed):
@@ -548,7 +628,27 @@ SENTINELS = [
 ]
 
 
+def replay_solve(rp):
+    comp = next(c for c in SOLVE_COMPS if list(c[:3]) == list(rp["comp"]))
+    t = run_solve_purity(comp, rp["storage"], rp["seed"], 1)
+    bad = {c for c, _ in rel.judge([t]).bad(1)}
+    ot = t.get("object_trace")
+    if ot:
+        ok, reached, n = judge_object_traces([ot])[0][1]
+        print("object trace:", json.dumps(ot["events"]), "accepted" if ok else f"rejected at line {reached}")
+        if not ok:
+            bad.add("solver_object_trace")
+    print("failing clauses:", sorted(bad))
+    if rp["clause"] in bad:
+        print(f"REPRODUCED clause={rp['clause']} property={rp['property']}")
+        return 1
+    print("not reproduced on the current tree")
+    return 0
+
+
 def replay(rp):
+    if rp.get("kind") == "solve_purity":
+        return replay_solve(rp)
     out = pool.map_isolated("harness.checks.purity", "run_history", [(rp["history"], rp["seed"], 1)],
                             key=lambda it: 0, chunk=1, timeout=400)
     st, val = out[0]
